@@ -354,6 +354,8 @@ def build_programmatic(m, default_mode='literal'):
         return G.GraphQLNonNull(typ(ref[1]))
 
     def default(a):
+        if default_mode == 'value' and 'pyvalue' in a:
+            return GraphQLDefaultInput(value=a['pyvalue'])    # an explicit external value (possibly ill-typed)
         if a['default'] is None:
             return None
         node = parse_const_value(a['default'])
